@@ -300,3 +300,25 @@ func mayFollow(a, b ssa.Instruction) bool {
 	}
 	return false
 }
+
+// phiLeaves flattens nested phis into their non-phi leaves.
+func phiLeaves(v ssa.Value) []ssa.Value {
+	var out []ssa.Value
+	seen := map[ssa.Value]bool{}
+	var walk func(ssa.Value)
+	walk = func(x ssa.Value) {
+		if seen[x] {
+			return
+		}
+		seen[x] = true
+		if p, ok := x.(*ssa.Phi); ok {
+			for _, e := range p.Edges {
+				walk(e)
+			}
+			return
+		}
+		out = append(out, x)
+	}
+	walk(v)
+	return out
+}
